@@ -176,6 +176,8 @@ def _bytes(v):
     if isinstance(v, (tuple, list)):
         return tuple(_bytes(x) for x in v)
     a = onp.asarray(v)
+    if a.dtype in (onp.dtype("longdouble"), onp.dtype("clongdouble")):      # x87 padding bytes are uninitialised: compare the values' exact repr
+        return (a.shape, str(a.dtype), repr(a.tolist()))
     return (a.shape, str(a.dtype), a.tobytes())
 
 
